@@ -211,6 +211,30 @@ fn my_ktid() -> u64 {
         .unwrap_or(0)
 }
 
+/// How oversubscribed the machine is (1-minute load average per cpu, clamped to 1..=20); refreshed every 128 runs.
+fn load_factor() -> f64 {
+    use std::sync::atomic::AtomicU64;
+    static RUNS: AtomicU64 = AtomicU64::new(0);
+    static FACTOR_X100: AtomicU64 = AtomicU64::new(100);
+    if RUNS.fetch_add(1, Ordering::Relaxed) % 128 == 0 {
+        let load = std::fs::read_to_string("/proc/loadavg")
+            .ok()
+            .and_then(|s| s.split_whitespace().next().and_then(|x| x.parse::<f64>().ok()))
+            .unwrap_or(0.0);
+        let ncpu = std::thread::available_parallelism().map(|n| n.get()).unwrap_or(1) as f64;
+        let f = (load / ncpu).clamp(1.0, 20.0);
+        FACTOR_X100.store((f * 100.0) as u64, Ordering::Relaxed);
+    }
+    FACTOR_X100.load(Ordering::Relaxed) as f64 / 100.0
+}
+
+/// The hand-over watchdog: MJVERIF_WATCHDOG_S (default 20 s) scaled by the load factor.  A released thread needs
+/// microseconds of cpu to reach its next yield point; the watchdog only has to tell a dead-lock from a starved process.
+fn watchdog(factor: f64) -> Duration {
+    let base = std::env::var("MJVERIF_WATCHDOG_S").ok().and_then(|s| s.parse::<f64>().ok()).unwrap_or(20.0);
+    Duration::from_secs_f64(base * factor)
+}
+
 struct RunResult {
     path: Vec<(usize, u32)>,
     trace: Vec<Ev>,
@@ -230,6 +254,8 @@ fn hang(what: &str, cfg: &Config, sched: &[usize]) -> ! {
 /// Runs one schedule: `prefix` first, then `pick(enabled)` (None = lowest enabled id).
 fn run_one(cfg: &Config, prefix: &[usize], rng: &mut Option<Rng>) -> RunResult {
     let n = cfg.threads.len();
+    let factor = load_factor();
+    let wd = watchdog(factor);
     let sh = Arc::new(Shared {
         m: Mutex::new(Inner {
             status: vec![Status::Starting; n],
@@ -406,9 +432,10 @@ fn run_one(cfg: &Config, prefix: &[usize], rng: &mut Option<Rng>) -> RunResult {
             g.status.iter().enumerate().any(|(t, s)| Some(t) != limbo && matches!(s, Status::Running | Status::Starting))
         };
         while busy(&g, limbo) {
-            let (g2, to) = sh.cv.wait_timeout(g, Duration::from_secs(10)).unwrap();
+            let t0 = Instant::now();
+            let (g2, _) = sh.cv.wait_timeout(g, wd).unwrap();
             g = g2;
-            if to.timed_out() && busy(&g, limbo) {
+            if t0.elapsed() >= wd && busy(&g, limbo) {
                 drop(g);
                 hang("thread-did-not-reach-a-yield-point", cfg, &sched_of(&path));
             }
@@ -430,7 +457,7 @@ fn run_one(cfg: &Config, prefix: &[usize], rng: &mut Option<Rng>) -> RunResult {
                 while matches!(g.status[t], Status::Running) {
                     let (g2, _) = sh.cv.wait_timeout(g, Duration::from_millis(200)).unwrap();
                     g = g2;
-                    if t0.elapsed() > Duration::from_secs(10) {
+                    if t0.elapsed() > wd {
                         drop(g);
                         hang("blocked-thread-did-not-continue-after-the-notifier-mutex-was-released", cfg, &sched_of(&path));
                     }
@@ -509,15 +536,21 @@ fn run_one(cfg: &Config, prefix: &[usize], rng: &mut Option<Rng>) -> RunResult {
         drop(g);
         if speculative {
             // does it go to sleep on the mutex, or does it get past the lock attempt?
+            // asleep = the kernel reports 'S' at >= 3 consecutive looks that span a window which grows with the load
+            let window = Duration::from_micros((150.0 * factor) as u64);
             let t0 = Instant::now();
             let mut sleeping = 0;
+            let mut first_s = Instant::now();
             loop {
                 if sh.idle[t].load(Ordering::SeqCst) == 1 {
                     break; // it parked again / finished: recorded as an ordinary step
                 }
                 if kernel_state(ktid) == b'S' && sh.idle[t].load(Ordering::SeqCst) == 0 {
+                    if sleeping == 0 {
+                        first_s = Instant::now();
+                    }
                     sleeping += 1;
-                    if sleeping >= 3 {
+                    if sleeping >= 3 && first_s.elapsed() >= window {
                         limbo = Some(t);
                         trace.push(Ev { tid: t, pt: 13, a: pt, g: 0, v: 0, w: 0 });
                         break;
@@ -526,7 +559,7 @@ fn run_one(cfg: &Config, prefix: &[usize], rng: &mut Option<Rng>) -> RunResult {
                     sleeping = 0;
                 }
                 std::thread::yield_now();
-                if t0.elapsed() > Duration::from_secs(10) {
+                if t0.elapsed() > wd {
                     hang("speculatively-released-thread-neither-parked-nor-slept", cfg, &sched_of(&path));
                 }
             }
